@@ -238,6 +238,9 @@ def run_case(case, ctx, sdir):
             if fmt != "XML":
                 return
             sio = io.StringIO(text.split("?>", 1)[1] if text.startswith("<?xml") else text)
+            pos = [0, "end", 7][core_int(case) % 3]
+            sio.seek(0, 2) if pos == "end" else sio.seek(pos)      # (as after write() / after a peek at the first line)
+            rec.count("stringio-position", str(pos))
             source = sio
         else:
             source = src
